@@ -33,6 +33,7 @@ CONSTANTS
   MaxVer,               \* bound on edge versions kept per (src,dst,rel)
   MaxOps,               \* bound on the length of a behaviour (history)
   MaxRej,               \* bound on the number of rejected calls in a behaviour
+  CoreVacuum,           \* TRUE: offer direct core-level graph vacuum with arbitrary cutoffs and no restarts
   GName,                \* the index whose namespace the modelled graph lives in
   Devs                  \* named deviations of the pinned code that this run models (see known_findings.json)
 
@@ -110,14 +111,20 @@ ObsIndex(ix) ==
         items |-> [id \in LiveIds(ix) |-> [vec |-> NodeOf(ix, id).vec, meta |-> NodeOf(ix, id).meta]]]
 
 \* edge timestamps are observable only up to their order: project them onto ranks
-Stamps(m) == UNION {{e.c, e.d} : e \in m.out \cup m.in} \ {0}
+\* (only stamps of stored forward versions are observable: reverse entries are reachable through queries only)
+Stamps(m) == UNION {{e.c, e.d} : e \in m.out} \ {0}
 Rank(S, x) == IF x = 0 THEN 0 ELSE Cardinality({y \in S : y <= x})
 ActiveAt(c, d, T) == IF T = 0 THEN d = 0 ELSE c <= T /\ (d = 0 \/ d > T)
 ObsGraph(m) ==
   LET S == Stamps(m) IN
   [versions |-> {[s |-> e.s, t |-> e.t, r |-> e.r, c |-> Rank(S, e.c), d |-> Rank(S, e.d), w |-> e.w, p |-> e.p] : e \in m.out},
-   outq |-> {<<Rank(S, te[1]), te[2].s, te[2].t, te[2].r>> : te \in {x \in (S \cup {0}) \X m.out : ActiveAt(x[2].c, x[2].d, x[1])}},
-   inq  |-> {<<Rank(S, te[1]), te[2].s, te[2].t, te[2].r>> : te \in {x \in (S \cup {0}) \X m.in : ActiveAt(x[2].c, x[2].d, x[1])}}]
+   outq |-> {[T |-> Rank(S, te[1]), s |-> te[2].s, t |-> te[2].t, r |-> te[2].r] : te \in {x \in (S \cup {0}) \X m.out : ActiveAt(x[2].c, x[2].d, x[1])}},
+   \* incoming queries: at T = 0 the reverse index alone answers (VGetIncoming); for T > 0 the engine
+   \* confirms every reverse hit against the forward versions (VGetIncomingEdges)
+   inq  |-> {[T |-> Rank(S, te[1]), s |-> te[2].s, t |-> te[2].t, r |-> te[2].r] :
+               te \in {x \in (S \cup {0}) \X m.in :
+                         /\ ActiveAt(x[2].c, x[2].d, x[1])
+                         /\ (x[1] # 0 => \E o \in m.out : o.s = x[2].s /\ o.t = x[2].t /\ o.r = x[2].r /\ ActiveAt(o.c, o.d, x[1]))}}]
 
 Obs(m) == [kv |-> m.kv,
            ix |-> [n \in Names |-> ObsIndex(m.ix[n])],
@@ -137,6 +144,7 @@ CConfig(n, mc)        == [c |-> "VCONFIG", n |-> n, mc |-> mc]
 CAutoLinks(n, al)     == [c |-> "VAUTOLINKS", n |-> n, al |-> al]
 CCompress(n, p)       == [c |-> "VCOMPRESS", n |-> n, p |-> p]
 CReset                == [c |-> "RESET"]
+CGVacuum(cutoff)      == [c |-> "GVACUUM", cutoff |-> cutoff]
 CLink(s, t, r, inv, w, p, ts)  == [c |-> "GLINK", s |-> s, t |-> t, r |-> r, inv |-> inv, w |-> w, p |-> p, ts |-> ts]
 CUnlink(s, t, r, inv, hard, ts) == [c |-> "GUNLINK", s |-> s, t |-> t, r |-> r, inv |-> inv, hard |-> hard, ts |-> ts]
 
@@ -269,6 +277,7 @@ RStep(rs, c) ==
          IF rs.agg[c.n].present THEN [rs EXCEPT !.agg[c.n].al = c.al] ELSE rs
     [] c.c = "VCOMPRESS" ->
          IF rs.agg[c.n].present THEN [rs EXCEPT !.agg[c.n].prec = c.p] ELSE rs
+    [] c.c = "GVACUUM" -> [rs EXCEPT !.g = VacuumG(@, c.cutoff)]
     [] c.c = "GLINK" -> [rs EXCEPT !.g = LinkG(@, c.s, c.t, c.r, c.inv, c.w, c.p, c.ts)]
     [] c.c = "GUNLINK" -> [rs EXCEPT !.g = UnlinkG(@, c.s, c.t, c.r, c.inv, c.hard, c.ts)]
     [] OTHER -> rs
@@ -507,12 +516,24 @@ VUnlink(s, t, r, inv, hard) ==
   /\ Log([op |-> "VUnlink", s |-> s, t |-> t, r |-> r, inv |-> inv, hard |-> hard, res |-> "ok"])
   /\ UNCHANGED <<snap, dev>>
 
-\* RunGraphVacuum with a retention that makes `cutoff` the vacuum horizon
-GraphVacuum(cutoff) ==
+\* Engine.RunGraphVacuum: the retention comes from the first index whose maintenance config
+\* sets one (token "mc2": 1ns), i.e. everything soft-deleted so far is pruned. Journaled (GVACUUM).
+GraphVacuum ==
+  LET g1 == VacuumG(G(mem), clock) IN
+  /\ \E n \in Names : mem.ix[n].maint = "mc2"
+  /\ mem' = [mem EXCEPT !.out = g1.out, !.in = g1.in]
+  /\ Journal(<<CGVacuum(clock)>>)
+  /\ Log([op |-> "GraphVacuum", res |-> "ok"])
+  /\ UNCHANGED <<snap, clock, dev>>
+
+\* core.DB.VacuumGraph(cutoff) called directly with an arbitrary horizon (not an engine call, not
+\* journaled): only offered in profiles without restarts (CoreVacuum = TRUE)
+GraphVacuumAt(cutoff) ==
   LET g1 == VacuumG(G(mem), cutoff) IN
+  /\ CoreVacuum
   /\ cutoff \in 1..clock
   /\ mem' = [mem EXCEPT !.out = g1.out, !.in = g1.in]
-  /\ Log([op |-> "GraphVacuum", cutoff |-> cutoff, res |-> "ok"])
+  /\ Log([op |-> "GraphVacuumAt", cutoff |-> cutoff, res |-> "ok"])
   /\ UNCHANGED <<snap, file, clock, dev>>
 
 \* ------------------------------ admin ------------------------------------
@@ -529,6 +550,7 @@ RewriteAOF ==
   /\ UNCHANGED <<mem, snap, clock>>
 
 Reopen ==
+  /\ ~CoreVacuum
   /\ mem' = Recover(snap, file)
   /\ Log([op |-> "Reopen", res |-> "ok"])
   /\ UNCHANGED <<snap, file, clock, dev>>
@@ -553,7 +575,8 @@ Next ==
   \/ \E n \in Names, p \in Targets : VCompress(n, p)
   \/ \E s, t \in GNodes, r \in Rels, inv \in Rels \cup {Nil}, w \in Ws, p \in Ps : VLink(s, t, r, inv, w, p)
   \/ \E s, t \in GNodes, r \in Rels, inv \in Rels \cup {Nil}, hard \in BOOLEAN : VUnlink(s, t, r, inv, hard)
-  \/ \E c \in 1..clock : GraphVacuum(c)
+  \/ GraphVacuum
+  \/ \E c \in 1..clock : GraphVacuumAt(c)
   \/ SaveSnapshot
   \/ RewriteAOF
   \/ Reopen
@@ -565,11 +588,11 @@ Spec == Init /\ [][Next]_vars
 (***************************************************************************)
 \* C01: closing and reopening NOW would read back exactly what is read now
 \* (evaluated in every reachable state = every history, every restart position)
-Inv_CleanRestart == dev = {} => Obs(Recover(snap, file)) = Obs(mem)
+Inv_CleanRestart == (dev = {} /\ ~CoreVacuum) => Obs(Recover(snap, file)) = Obs(mem)
 
 \* C01 (repeated restarts): recovery is idempotent on its own result
 Inv_RestartIdempotent ==
-  dev = {} => LET m1 == Recover(snap, file) IN Obs(Recover(snap, file)) = Obs(m1)
+  (dev = {} /\ ~CoreVacuum) => LET m1 == Recover(snap, file) IN Obs(Recover(snap, file)) = Obs(m1)
 
 \* C04: the implementation-shaped index agrees with the plain map of records:
 \*   e2i points at a live node carrying that id, and no id has two live nodes.
@@ -590,7 +613,9 @@ Inv_ListedIsReadable ==
 \* C10: forward and reverse views agree at every time
 OutView(T) == {<<e.s, e.t, e.r>> : e \in {x \in mem.out : ActiveAt(x.c, x.d, T)}}
 InView(T)  == {<<e.s, e.t, e.r>> : e \in {x \in mem.in  : ActiveAt(x.c, x.d, T)}}
-Inv_FwdRevAgree == \A T \in 0..clock : OutView(T) = InView(T)
+\* now: both views coincide; in the past: every forward-active edge is reachable through the reverse index
+\* (the reverse index may be coarser: it keeps one entry across weight/property changes)
+Inv_FwdRevAgree == OutView(0) = InView(0) /\ \A T \in 1..clock : OutView(T) \subseteq InView(T)
 \* C10: at most one active version per (s,t,r)
 Inv_OneActive == \A e1, e2 \in mem.out : (e1.s = e2.s /\ e1.t = e2.t /\ e1.r = e2.r /\ e1.d = 0 /\ e2.d = 0) => e1 = e2
 
